@@ -51,6 +51,14 @@ def run_worker(py, prop, h, tier, scratch, env):
     log = out + ".log"
     hard = h.opts.get("hard_timeout_thorough" if tier == "thorough" else "hard_timeout", 2400 if tier == "thorough" else 900)
     t0 = time.time()
+    deadline = float(env.get("VT_DEADLINE", "0") or 0)
+    if deadline:
+        # the quick tier as a whole is boxed (a check "run on every change" is stopped by its user after 900 s):
+        # what has not finished by then is reported as inconclusive, never as held
+        left = deadline - t0
+        if left < 15:
+            return {"harness": h.name, "prop": prop, "hard_timeout": "0 (not started: the tier's overall time box was reached)"}
+        hard = min(hard, left)
     try:
         with open(log, "w") as lf:
             p = subprocess.run([py, "-u", "-m", "vt.worker", prop, h.name, out, tier], cwd=VERIF, env=env, stdout=lf, stderr=subprocess.STDOUT, timeout=hard)
@@ -120,6 +128,8 @@ def _main(a, prop, seed, t0, scratch):
     env = dict(os.environ)
     env["PYTHONPATH"] = VERIF + os.pathsep + env.get("PYTHONPATH", "")
     env["VERIF_SEED"] = str(seed)
+    if a.tier == "quick":
+        env["VT_DEADLINE"] = str(t0 + float(os.environ.get("VT_QUICK_BOX", "780")))
     py = sys.executable
     results = []
     with cf.ThreadPoolExecutor(max_workers=a.jobs) as ex:
